@@ -176,6 +176,7 @@ class C13(Check):
         # ---------------- N4
         gp, gv = mod.func("Model.get_derived_parameters"), mod.func("Model.get_derived_variables")
         rp, rv = norm(gp.body[-1]), norm(gv.body[-1])
+        rp, rv = rp.replace("self._derived.items()", "derived.items()"), rv.replace("self._derived.items()", "derived.items()")
         if rp == "return {k: v for k, v in derived.items() if k in cache.all_parameter_values}" and \
                 rv == "return {k: v for k, v in derived.items() if k not in cache.all_parameter_values}":
             self.holds("N4", MOD, "Model.get_derived_parameters", "partition", gp, "k in frozen table")
